@@ -70,6 +70,8 @@ def jobs(tier, seed):
         out.append(('setters-%s' % m, dict(kind='setters', m1=m, m2='')))
     for m in ('central', 'forward', 'complex'):
         out.append(('reuse-%s' % m, dict(kind='reuse', m1=m, m2='')))
+    for m in ('central', 'forward', 'backward', 'complex'):
+        out.append(('reuse2-%s' % m, dict(kind='reuse2', m1=m, m2='')))
     for cls in ('Jacobian', 'Gradient', 'Hessian', 'Hessdiag', 'Limit'):
         for m in (('central', 'forward') if cls != 'Limit' else ('above', 'below')):
             out.append(('reuse-%s-%s' % (cls, m), dict(kind='reuse_cls', m1=m, m2=cls)))
@@ -88,6 +90,8 @@ def run_job(job, kind, m1, m2):
         return reuse_cls(job, m2, m1)
     if kind == 'cgen':
         return cgen(job)
+    if kind == 'reuse2':
+        return reuse2(job, m1)
     return reuse(job, m1)
 
 
@@ -364,6 +368,57 @@ def reuse(job, method):
                               dict(key='C09:reuse:%s:result-depends-on-history' % method, kind='reuse', method=method, what=what))
 
 
+REUSE2 = (('n=0 called, n restored', dict(n=0), dict(n=1)), ('order=4 called, order restored', dict(order=4), dict(order=2)),
+          ('n=3 called, n restored', dict(n=3), dict(n=1)), ('n=2 called and kept', dict(n=2), dict()))
+
+
+def _reuse2_sequence(nd, f, method):
+    """one object taken through REUSE2 (each step: set attributes, call, set attributes, call); -> [(label, reused, fresh)]"""
+    mk = lambda: nd.MinStepGenerator(base_step=0.25, step_ratio=2.0, num_steps=5, step_nom=1.0)  # noqa
+    d = nd.Derivative(f, step=mk(), n=1, order=2, method=method, full_output=True)
+    cur = dict(n=1, order=2)
+    out = []
+    d(0.5)
+    for label, change, restore in REUSE2:
+        for k, v in change.items():
+            setattr(d, k, v)
+        cur.update(change)
+        d(0.5)
+        for k, v in restore.items():
+            setattr(d, k, v)
+        cur.update(restore)
+        reused = d(0.5)
+        fresh = nd.Derivative(f, step=mk(), method=method, full_output=True, **cur)(0.5)
+        out.append((label, reused, fresh))
+    return out
+
+
+def reuse2(job, method):
+    nd = cm.nd_mods()['nd']
+    a = [sn.real_var('a%d' % p) for p in range(4)]
+    box = [z3.And(v.t >= -1, v.t <= 1) for v in a]
+    f = cm.poly_fun(a)
+
+    def harness():
+        with tr.traced(), sn.abstract_division(products=True), cm.quiet():
+            return _reuse2_sequence(nd, f, method)
+    ex = sn.Explorer(harness, assumptions=box, max_paths=600, timeout_ms=20000)
+    paths = list(ex.paths())
+    job.absorb_explorer(ex)
+    for p in paths:
+        if p.exc is not None:
+            if isinstance(p.exc, sn.Unsupported):
+                raise p.exc
+            job.violation('raises', dict(key='C09:reuse2:raises:%s' % type(p.exc).__name__, kind='reuse2', exc=repr(p.exc)[:300]))
+            continue
+        for label, (va, ia), (vb, ib) in p.result:
+            for x, y, what in ((va, vb, 'value'), (ia.error_estimate, ib.error_estimate, 'error_estimate'), (ia.final_step, ib.final_step, 'final_step')):
+                for u, w in zip(cm.flat_list(x), cm.flat_list(y)):
+                    u, w = sn.as_symc(u), sn.as_symc(w)
+                    job.prove('%s: %s' % (label, what), z3.And(sn.lift(u.re) == sn.lift(w.re), sn.lift(u.im) == sn.lift(w.im)), p.conds(),
+                              dict(key='C09:reuse2:%s:result-depends-on-history' % method, kind='reuse2', method=method, what=what))
+
+
 def _cls_setup(cls, method, nd, lim):
     """-> (constructor(fun) -> object, fun with symbolic coefficients, points x1, x2, names)"""
     if cls == 'Limit':
@@ -529,6 +584,23 @@ def replay(cex):
                     return True, '%s reused after (x=%r, n=%d, order=%d) yields %r for (x=%r, %s, n=%d, order=%d); a fresh generator yields %r' % (
                         cls.__name__, xp, npv, opv, a[:3], x, method, n, o, b[:3])
         return False, 'reused generator == fresh generator on the probes'
+    if kind == 'reuse2':
+        method = cex['config']['m1']
+        rng = np.random.default_rng(9)
+        for trial in range(6):
+            cs = rng.uniform(-1, 1, size=4)
+            try:
+                with cm.quiet():
+                    seq = _reuse2_sequence(nd, cm.poly_fun(list(cs)), method)
+            except Exception as e:  # noqa
+                return True, 'reuse sequence raises %s: %s' % (type(e).__name__, e)
+            for label, a, b in seq:
+                if not (np.array_equal(a[0], b[0]) and np.array_equal(a[1].error_estimate, b[1].error_estimate)
+                        and np.array_equal(a[1].final_step, b[1].final_step)):
+                    return True, ('Derivative(method=%s) after "%s": reused object gives value/error/final_step %r / %r / %r, a fresh object '
+                                  '%r / %r / %r (polynomial coefficients %s)' % (method, label, a[0], a[1].error_estimate, a[1].final_step,
+                                                                                 b[0], b[1].error_estimate, b[1].final_step, list(cs)))
+        return False, 'reused object == fresh object on random polynomials'
     if kind == 'reuse':
         method = cex['config']['m1']
         rng = np.random.default_rng(8)
